@@ -17,6 +17,25 @@ type %(T)s struct{ Name string }
 func New%(T)s(name string) *%(T)s { return &%(T)s{Name: name} }
 '''
 
+SHARED = '''package shared
+
+import (
+	"time"
+
+	"github.com/google/wire"
+)
+
+type Inner struct{ Host string }
+type Cfg struct {
+	In      Inner
+	Timeout time.Duration
+	Tags    map[string][]string
+}
+
+// Set is used by several packages of one invocation: its value expression is one AST shared by all of them.
+var Set = wire.NewSet(wire.Value(Cfg{In: Inner{Host: "h"}, Timeout: 5 * time.Second, Tags: map[string][]string{"k": {"v"}}}))
+'''
+
 MANY_LIB = '''package app
 
 import (
@@ -150,6 +169,24 @@ func InitLogger() (*Logger, func()) {
 	wire.Build(LogSet)
 	return nil, nil
 }
+
+// moreHelper is a non-injector declaration of the second injector file.
+var moreHelper = "more"
+'''
+MANY_WIRE3 = '''//go:build wireinject
+// +build wireinject
+
+package app
+
+import "github.com/google/wire"
+
+func InitLoggerAgain() (*Logger, func()) {
+	wire.Build(LogSet)
+	return nil, nil
+}
+
+// thirdHelper is a non-injector declaration of the third injector file.
+var thirdHelper = 3
 '''
 
 SMALL_LIB = '''package app
@@ -204,16 +241,17 @@ package app
 import (
 	"time"
 
+	"example.com/det/shared"
 	"github.com/google/wire"
 	_ "github.com/pmezard/go-difflib/difflib"
 )
 
-var shared = A{V: 41}
+var sharedA = A{V: 41}
 
 func InitAll() All {
 	wire.Build(wire.Struct(new(All), "*"),
 		wire.Value(A{V: 1}), wire.Value(B{V: "b"}), wire.Value(C{V: time.Minute}), wire.Value(D{V: []int{1, 2}}),
-		wire.Value(E{V: map[string]bool{"k": true}}), wire.Value(F{V: &shared}), wire.Value(G{V: [2]string{"x", "y"}}), wire.Value(H{V: 1.5}))
+		wire.Value(E{V: map[string]bool{"k": true}}), wire.Value(F{V: &sharedA}), wire.Value(G{V: [2]string{"x", "y"}}), wire.Value(H{V: 1.5}))
 	return All{}
 }
 
@@ -229,6 +267,11 @@ func InitA() A {
 func InitB() B {
 	wire.Build(wire.Value(B{V: "bb"}))
 	return B{}
+}
+
+func InitCfg() shared.Cfg {
+	wire.Build(shared.Set)
+	return shared.Cfg{}
 }
 '''
 # the other packages of a shared invocation use the same type names, value expressions and imports as the programs under test:
@@ -261,6 +304,7 @@ import (
 	"time"
 
 	"github.com/google/wire"
+	"%(modp)s/shared"
 	xutil "%(modp)s/x/util"
 )
 
@@ -268,10 +312,15 @@ func Init() T {
 	wire.Build(New, wire.Value(A{V: 9}), wire.Value(B{V: "o"}), wire.Value(time.Second), xutil.NewAlpha, wire.Value("name"))
 	return T{}
 }
+
+func InitCfg() shared.Cfg {
+	wire.Build(shared.Set)
+	return shared.Cfg{}
+}
 '''
 
 PROGRAMS = {
-    'many': {'lib.go': MANY_LIB, 'wire.go': MANY_WIRE, 'wire_more.go': MANY_WIRE2},
+    'many': {'lib.go': MANY_LIB, 'wire.go': MANY_WIRE, 'wire_more.go': MANY_WIRE2, 'wire_third.go': MANY_WIRE3},
     'small': {'lib.go': SMALL_LIB, 'wire.go': SMALL_WIRE},
     'values': {'lib.go': VALUES_LIB, 'wire.go': VALUES_WIRE},
 }
@@ -314,6 +363,7 @@ def setup(root, program, cfg):
         shutil.copy(os.path.join(core.REPO, 'go.sum'), os.path.join(proj, 'go.sum'))
     for name, txt in PROGRAMS[program].items():
         write(os.path.join(proj, 'app', name), txt)
+    write(os.path.join(proj, 'shared', 'shared.go'), SHARED)
     write(os.path.join(proj, 'x', 'util', 'util.go'), UTIL % {'T': 'Alpha'})
     write(os.path.join(proj, 'y', 'util', 'util.go'), UTIL % {'T': 'Beta'})
     if cfg['company'] == 'with-others':
